@@ -18,7 +18,7 @@ Print Assumptions C21_accepted_on_constructs_only.
    matching end -- for else: the else and its arm, the end kept -- is replaced by the replacement code;
    everything outside, with its before/after/alternate instrumentation, is untouched) is compared with the
    real output on every sampled (body, plan); the theorem `model c = spec21` for all bodies is not proved.
-   Known class D19 (FunctionModifier::inject_at drops the replacement). *)
+   (D19, FunctionModifier::inject_at dropping the replacement, has been repaired.) *)
 Example C21_spec_example :
   let body := [FConst 1; FIf BtEmpty; FBlock BtEmpty; FOther 1; FEnd; FElse; FOther 2; FEnd; FLoop BtEmpty; FEnd; FEnd] in
   spec21 [(5%nat, MBlockAlt, [FConst 7; FDrop]); (8%nat, MBlockAlt, []); (0%nat, MBefore, [FOther 3])] body
@@ -31,10 +31,11 @@ Example C21_nonvacuous :
   let c := mkCase 1 0 [] [] [] 2 body plan 0 false (model c0) true 0 in
   agree c = true /\ domain21 c = true /\ holds21 c = true.
 Proof. vm_compute. repeat split; reflexivity. Qed.
-Example C21_refuted_D19 :
+(* former D19 witness (FunctionModifier::inject_at dropped the replacement; repaired): now holds *)
+Example C21_former_D19_witness_holds :
   let body := [FBlock BtEmpty; FOther 1; FEnd; FEnd] in
   let plan := [(0%nat, MBlockAlt, [FConst 1007; FDrop])] in
   let c0 := mkCase 1 0 [] [] [] 2 body plan 3 false None true 0 in
-  let c := mkCase 1 0 [] [] [] 2 body plan 3 false (model c0) true 1 in
-  agree c = true /\ domain21 c = true /\ holds21 c = false /\ known_D19 c = true.
+  let c := mkCase 1 0 [] [] [] 2 body plan 3 false (model c0) true 0 in
+  agree c = true /\ domain21 c = true /\ holds21 c = true.
 Proof. vm_compute. repeat split; reflexivity. Qed.
